@@ -119,8 +119,8 @@ PROPS = {
         rule="full-app fixture, one validator; signed txs through the real ante chain for licence creation / activation / authentication by any account, sales voted through the real oracle (MsgLightNodeSaleClaim + skyway end-blocker, "
              "so the attestation's cached context is exercised), governance config through the proposal handlers; interleaved licences for several addresses incl. existing accounts, funders with/without (spendable) balance, right/wrong sale contract, "
              "re-activation, vesting sampled at start / mid / end / end+1; distinct = distinct op text of the case; non-trivial = at least one accepted op",
-        trusted_base=[SDK_TRUST, "calendar arithmetic (time.AddDate) is taken from the Go side as an input of the op line; the SDK's half-even rounding of vesting at 18 decimals is modelled"],
-        assumptions=["'only by the licensed address itself' is proved in the form the ante chain implements: the signer is the licensee or an address the licensee issued a fee grant to"],
+        trusted_base=[SDK_TRUST, "time.AddDate(0, months, 0) is re-implemented in the model (addMonths) and diffed against the EndTime the real code stored; block times are assumed UTC and >= 1970"],
+        assumptions=["'only by the licensed address itself' holds as: the signer is the licensee, an address the licensee itself fee-granted (a MsgGrantAllowance is signed by its granter), or a sale client of the configured fee granter when governance set the fee granter to a licensed address (theorems activate_only_by_licensee_or_delegate, activate_only_by_licensee_or_own_delegate; the last case is the known finding C18-feegranter-licensee)"],
     ),
     "C09": dict(
         lean_modules=["PalomaModel.Props.C09"], gen=["Panics.lean"],
